@@ -11,7 +11,7 @@ from bind import replay_packet as rp, replay_values as rv
 
 PY_CLAUSES = {"C13_shared_default", "C13_pack_pure", "C12.phase", "C12.pack_raises_only_PacketError", "conf_perr",
               "conf_pack_outcome", "conf_out", "conf_construct", "conf_outcome", "conf_values", "conf_pack2_outcome", "conf_out2",
-              "conf_assert_consistency", "ctor_error", "C20_ChangeMakesUnequal"}
+              "conf_assert_consistency", "ctor_error", "C20_ChangeMakesUnequal", "C19_Visible"}
 
 
 def cfg(universe, invariants, part, nparts):
@@ -56,7 +56,8 @@ def exhaustive_part(v, universe, invariants, gens, owned, max_judge=400, always_
         raise common.MachineryFailure("replay harness exception: " + harness[0]["detail"])
     v.cov["executions_differing_from_spec"] = v.cov.get("executions_differing_from_spec", 0) + len(mism)
     mism.sort(key=lambda m: 0 if any(c in owned for c in m["clauses"]) else 1)
-    todo = [m for m in mism if "ctor_error" not in m["clauses"]][:max_judge]
+    todo = common.spread([m for m in mism if "ctor_error" not in m["clauses"]],
+                         lambda m: (m["d"], tuple(sorted(m["clauses"])), json.dumps(m["gen"]), m.get("how")), max_judge)
     names_list = []
     if todo:
         tres, out = rv.judge([m["obs"] for m in todo])
